@@ -700,7 +700,7 @@ def obs_token(o, what):
 
 def main():
     ck = Check("C14", "other")
-    ck.lean_stage(["VelaVerif.Props.C14"])
+    ck.lean_stage(["VelaVerif.Props.C14", "VelaVerif.Props.C11Writer"])     # write_deterministic: the writer's only unordered collection
     pipeline.load_vela()
     hardcoded, info = entry_options()
     if ck.replay_arg:
@@ -839,13 +839,22 @@ def main():
         ck.sample({"class": [key[0][0], key[0][1], key[1]], "compared": what, "runs": len(sel), "verdict": v,
                    "first": obs_token(sel[0][0], what)[:160]})
 
+    # the TFLite writer alone, on generated graphs, under other hash seeds (harness/writer_stage.py; the model side is C11's)
+    n_whash = 0
+    if not ck.replay_arg:
+        import writer_stage
+
+        _wstats, wcases = writer_stage.function_stage(ck, 1500 if ck.thorough else 260, 0)
+        n_whash = writer_stage.hashseed_stage(ck, wcases, [1, 2, 3, 4, 5, 6, 7, 8] if ck.thorough else [11, 12, 13], 300 if ck.thorough else 60)
+
     ck.finish({
+        "writer_hashseed_cases": n_whash,
         "explanation": "Sequences of compilations are run inside one interpreter (fresh fork per sequence) through main / convert / "
                        "convert_bytes, plus command-line subprocesses under several PYTHONHASHSEED values; all runs of the same (model, "
                        "effective options) form a class whose (ending, output size, SHA-256, summary columns, debug database) the Lean "
                        "judge Determinism.agree must find identical. Props/C14 proves when the abstract process-state model is history "
                        "independent and exhibits the witnesses where the unchanged code is not.",
-        "evaluations": nsteps + len(cli_results) + nsort + ngreedy + nhill,
+        "evaluations": nsteps + len(cli_results) + nsort + ngreedy + nhill + n_whash,
         "greedy_tie_trials": ngreedy,
         "hillclimb_repeat_allocations": nhill,
         "compilations_observed": nsteps + len(cli_results),
